@@ -35,6 +35,75 @@ def _lazy_slot(f, name, tape):
     return str(A.ftxt(tail)) in ("self.%s.as_ref().unwrap()" % name, "self.%s.as_ref().expect(\"tape\")" % name)
 
 
+def _is_trace_copy(fn, e, depth=0):
+    """is the value of `e` a copy of `trace` on every path: `trace.clone()`, recycled storage after
+    `.copy_from(trace)`, a branch / match all of whose arms are, or a local bound to one"""
+    e = A.strip(e)
+    if e is None or depth > 6:
+        return False
+    k = e.get("k")
+    t = str(A.ftxt(e))
+    if t in ("trace.clone()", "trace.to_owned()", "Clone::clone(trace)", "(*trace).clone()"):
+        return True
+    if k == "Block":
+        stmts = e.get("stmts") or []
+        if not stmts or stmts[-1].get("semi"):
+            return False
+        tail = A.strip(A.stmt_expr(stmts[-1]))
+        if tail is None:
+            return False
+        nm = A.ident(tail)
+        if nm and any(str(A.ftxt(A.stmt_expr(s_) or {})) == "%s.copy_from(trace)" % nm for s_ in stmts[:-1]):
+            return True
+        return len(stmts) == 1 and _is_trace_copy(fn, tail, depth + 1)
+    if k == "If":
+        return e.get("else") is not None and _is_trace_copy(fn, e["then"], depth + 1) and _is_trace_copy(fn, e["else"], depth + 1)
+    if k == "Match":
+        return bool(e["arms"]) and all(_is_trace_copy(fn, a["body"], depth + 1) for a in e["arms"])
+    if k == "Path" and A.ident(e):
+        lets = [s_ for s_ in A.find(fn["body"], "Let") if A.binding_name(s_["pat"]) == A.ident(e) and s_.get("init") is not None]
+        return len(lets) == 1 and _is_trace_copy(fn, lets[0]["init"], depth + 1)
+    if k == "MethodCall" and e["method"] in ("unwrap", "expect") and A.ident(A.strip(e["recv"])):
+        # `if let Some(t) = S.as_mut() { t.copy_from(trace); } else { S = Some(<copy>); }  ..  S.unwrap()`
+        sname = A.ident(A.strip(e["recv"]))
+        for i in A.find(fn["body"], "If"):
+            c = str(A.ftxt(A.strip(i["cond"])))
+            import re as _re
+
+            m = _re.fullmatch(r"\(?letSome\((\w+)\)=%s\.as_mut\(\)\)?" % _re.escape(sname), c)
+            if not m or i.get("else") is None:
+                continue
+            then_t = str(A.ftxt(i["then"]))
+            els = [a for a in A.find(i["else"], "Assign") if str(A.ftxt(a["left"])) == sname]
+            if then_t == "{%s.copy_from(trace);}" % m.group(1) and len(els) == 1:
+                r = A.strip(els[0]["right"])
+                if r.get("k") == "Call" and A.is_path(r["func"], "Some") and len(r["args"]) == 1 and _is_trace_copy(fn, r["args"][0], depth + 1):
+                    return True
+        return False
+    if k == "MethodCall" and e["method"] in ("unwrap_or_else", "unwrap_or") and len(e["args"]) == 1:
+        alt = A.strip(e["args"][0])
+        if alt.get("k") == "Closure":
+            alt = alt["body"]
+        r = A.strip(e["recv"])
+        if r.get("k") == "MethodCall" and r["method"] == "map" and len(r["args"]) == 1 and A.strip(r["args"][0]).get("k") == "Closure":
+            return _is_trace_copy(fn, alt, depth + 1) and _is_trace_copy(fn, A.strip(r["args"][0])["body"], depth + 1)
+        return False
+    return False
+
+
+def _stored_key(fn):
+    """the key expression of `self.next = Some((KEY, Box::new(RenderHandle {..})))`"""
+    asg = [a for a in A.find(fn["body"], "Assign") if str(A.ftxt(a["left"])) == "self.next"]
+    out = []
+    for a in asg:
+        r = A.strip(a["right"])
+        if r.get("k") == "Call" and A.is_path(r["func"], "Some") and len(r["args"]) == 1:
+            tup = A.strip(r["args"][0])
+            if tup.get("k") == "Tuple" and len(tup["elems"]) == 2 and str(A.ftxt(tup["elems"][1])).startswith("Box::new(RenderHandle{"):
+                out.append(tup["elems"][0])
+    return out
+
+
 def hfn(name, root=None):
     return A.find_fn(RM, name, self_ty="RenderHandle", root=root)
 
@@ -78,9 +147,7 @@ def r_cache_key(rule, root=None):
             rule.bad("cache|compare", "the cached simplification must be discarded iff `&neighbor.0 != trace` (found conditions %s): reusing a child built for another trace evaluates the wrong tape" % conds, A.where(fn, tk))
     need = [
         ("a new child is simplified from this handle's shape with the current trace", "letnext=self.shape.simplify(trace,s,workspace).unwrap();"),
-        ("the stored key is a copy of the current trace", "ifletSome(t)=trace_storage.as_mut(){t.copy_from(trace);}else{trace_storage=Some(trace.clone());}"),
         ("the new child starts with empty tape caches and no child of its own", "Box::new(RenderHandle{shape:next,i_tape:None,f_tape:None,g_tape:None,next:None})"),
-        ("the key is stored next to the child it was built for", "self.next=Some((trace_storage.unwrap(),Box::new("),
         ("an unhelpful simplification is recycled and the parent used instead", "if(next.size()>=self.shape.size()){shape_storage.extend(next.recycle());self}"),
     ]
     # a new child is only built when no reusable one is cached - whichever branch that is
@@ -90,6 +157,15 @@ def r_cache_key(rule, root=None):
         rule.ok("RenderHandle::simplify: a new child is only built when no reusable one is cached", file=RM, line=fn["ln"])
     else:
         rule.bad("cache|a new child is only built wh", "RenderHandle::simplify: a new child is only built when no reusable one is cached (the `self.shape.simplify(..)` call must sit under `self.next.is_none()`; found %s)" % cs_, A.where(fn))
+    keys = _stored_key(fn)
+    if len(keys) != 1:
+        rule.bad("cache|the key is stored next to th", "RenderHandle::simplify: the key is stored next to the child it was built for (`self.next = Some((key, Box::new(RenderHandle {..})))` not found)", A.where(fn))
+    else:
+        rule.ok("RenderHandle::simplify: the key is stored next to the child it was built for", file=RM, line=fn["ln"])
+        if _is_trace_copy(fn, keys[0]):
+            rule.ok("RenderHandle::simplify: the stored key is a copy of the current trace", file=RM, line=fn["ln"])
+        else:
+            rule.bad("cache|the stored key is a copy of ", "RenderHandle::simplify: the stored key is a copy of the current trace (`%s` is not `trace.clone()` / recycled storage after `.copy_from(trace)` on every path)" % str(A.ftxt(keys[0]))[:60], A.where(fn))
     for what, frag in need:
         if frag in t:
             rule.ok("RenderHandle::simplify: %s" % what, file=RM, line=fn["ln"])
